@@ -258,7 +258,7 @@ def run(tier, t0):
     created_once(res, prog, c)
     # the cache tee sees exactly the consumed bytes: shared rule with C10.1 (a dropped callback truncates the cache entry)
     from . import C10
-    res.rule('C10.1', 0, floor=3, note='(shared with C10) every consume(n) in parse_async is preceded by callback(&buf.data()[..n])')
+    res.rule('C10.1', 0, floor=2, note='(shared with C10) every consume(n) in parse_async is preceded by callback(&buf.data()[..n])')
     fa = c.fn(C10.PARSE_ASYNC)
     if fa is not None:
         C10.pairing(res, prog, c, fa)
